@@ -135,7 +135,7 @@ func (s *scen) Apply(i int) (string, string) {
 			break
 		}
 	}
-	e, blk := sentinel.Entry(o.res, sentinel.WithBatchCount(o.batch))
+	e, blk := sentinel.Entry(o.res, batchOpt(o.batch)...)
 	obs := "pass"
 	if blk != nil {
 		obs = "block"
@@ -535,4 +535,13 @@ func replay(c *props.Ctx, raw json.RawMessage) (bool, string) {
 
 func init() {
 	props.Register(&props.Prop{ID: "C04", Run: run, Replay: replay})
+}
+
+// batchOpt passes the batch count the way callers do: a request of one token names no batch count at all, so
+// the default of the (pooled) entry options is part of what is checked.
+func batchOpt(b uint32) []sentinel.EntryOption {
+	if b == 1 {
+		return nil
+	}
+	return []sentinel.EntryOption{sentinel.WithBatchCount(b)}
 }
